@@ -101,7 +101,7 @@ Print Assumptions C09_fuse_overlapping_reads.
 
 (* Concurrent requests on ONE handle.  indexFileHandle.read holds the handle's mutex across Seek + Read, so requests that
    arrive while another one is under way (kernel read-ahead) are served one at a time in the order the mutex lets
-   them: some permutation [served] of the requests [issued].  For EVERY such order every answer is the blob's bytes
+   them in: some permutation [served] of the requests [issued].  For EVERY such order every answer is the blob's bytes
    blob[off, off+min(size, L-off)), or EIO only for an offset outside the blob or when the store fails (fuse_answer_ok).
    That the requests of a handle are atomic is the model's reading of that mutex; the harness checks it on the
    implementation: one request is parked inside GetChunk while another one is issued on the SAME handle. *)
